@@ -21,7 +21,7 @@ RULE = ('mentions = 3 names x {variable, {parameter}, <error>} x offsets {none, 
         'option lattice lags, leads in {None,0,1,3} x min_lags, min_leads in {0,1,3}. non-trivial = accepted program (classification compared) or rejection compared')
 ASSUMPTIONS = [
     'when a script contains both a kind clash and a double definition either error class is accepted',
-    'explicit lags=/leads= together with min_lags=/min_leads=: either the explicit value or the larger of the two is accepted',
+    'explicit lags=/leads= replace the derived value outright (min_lags=/min_leads= only raise a derived value), as the docstring says ("impose")',
     'default-range clause is checked only when lags/leads are not overridden below the script\'s own depth',
 ]
 
@@ -89,7 +89,7 @@ OPTION_SMALL = [dict(), dict(lags=1, leads=None, min_lags=0, min_leads=1), dict(
 def allowed_len(explicit, derived, minimum):
     if explicit is None:
         return {max(derived, minimum)}
-    return {explicit, max(explicit, minimum)}
+    return {explicit}  # an explicit value replaces the derived one outright; min_* only raise a derived value
 
 
 @robust(1, 'exception')
